@@ -114,6 +114,11 @@ def jobs():
         items = [(t.replace("WORD", w), r) for t, r in LOOPS]
         J.append({"name": "loops_" + w, "core": w + "-placement", "module": "checks.C05", "spec": "loops_" + w, "text": HEAD + BODY.replace("CORE", "__alt1(%s)" % alts([(ind(s), r) for s, r in items]))})
     J.append({"name": "start_type", "core": "start-type", "module": "checks.C05", "spec": "start", "text": HEAD + "start :: __ealt1(%s)\n" % ealts(START)})
+    # `start` declared as an external (no body to look at): only `fn -> void` may be accepted
+    J.append({"name": "start_external_result", "core": "start-type(external)", "module": "checks.C05", "spec": "start_ext_ret", "tys": ["void", "int", "str", "bool"], "text": "start : fn -> Ty__1 : external\n"})
+    J.append({"name": "start_external_parameter", "core": "start-type(external)", "module": "checks.C05", "spec": "start_ext_bad", "tys": ["int", "str", "bool", "float"], "text": "start : fn Ty__1 -> void : external\n"})
+    J.append({"name": "start_external_not_a_function", "core": "start-type(external)", "module": "checks.C05", "spec": "start_ext_bad", "tys": ["int", "str", "bool", "float"], "text": "start : Ty__1 : external\n"})
+    J.append({"name": "start_annotated_definition", "core": "start-type(annotated)", "module": "checks.C05", "spec": "start_ext_ret", "tys": ["void", "int", "str", "bool"], "text": "start : fn -> Ty__1 : fn do\n    pr(1)\nend\n"})
     return J
 
 
@@ -139,6 +144,8 @@ def _fwd_jobs():
     J.append({"name": "self_field", "core": "field-access-through-self", "module": "checks.C05", "spec": "fwd_access",
               "text": "Aa :: blob {\n    x: int,\n    f: fn -> int,\n}\nstart :: fn do\n    a :: Aa { x: 1, f: fn -> int do ret __ealt1(self.x, self.nope, undefined_zz) end }\n    pr(a.f())\nend\n"})
     return J
+SPECS["start_ext_ret"] = lambda S, I: z3.Not(I("ty1", "void")); ACCEPT_SPECS["start_ext_ret"] = lambda S, I: I("ty1", "void")
+SPECS["start_ext_bad"] = lambda S, I: z3.BoolVal(True)
 SPECS["fwd_access"] = lambda S, I: I("ealt1", 1); ACCEPT_SPECS["fwd_access"] = lambda S, I: I("ealt1", 0)
 SPECS["fwd_case"] = lambda S, I: z3.Or(I("alt1", 1), I("alt1", 2)); ACCEPT_SPECS["fwd_case"] = lambda S, I: I("alt1", 0)
 
@@ -149,5 +156,6 @@ def run(tier):
     rc = ktcrun.run_check("C05", tier, J, t0, ktcrun.KTC_FUNCTIONS,
                           {"blob_field_subsets": len(BLOB_INST), "field_accesses": len(FIELD), "enum_constructions": len(ENUM), "case_shapes": len(CASE), "tuple_shapes": len(TUPLE), "break_continue_placements": len(LOOPS), "start_types": len(START)},
                           ktcrun.KTC_ASSUMPTIONS + ["blobs with two fields, enums with two variants (plain and generic), tuples of length <= 4",
-                                                    "a missing `start` / `start` only in an imported module is checked on the native binary by C12's negative layouts, not here"])
+                                                    "a missing `start` / `start` only in an imported module is checked on the native binary by C12's negative layouts, not here"],
+                          allow_vacuous=("start_external_parameter", "start_external_not_a_function"))
     return rc
